@@ -51,6 +51,15 @@ def run(ctx):
         inputs.append((3, 0, raw, 'lzma-eopm-unknown', False))
         known = raw[:5] + len(data).to_bytes(8, 'little') + raw[13:]
         inputs.append((3, 0, known, 'lzma-eopm-known', False))
+    # Index fields through lzma_index_decoder (sliced input) and lzma_index_encoder (sliced output); valid and damaged
+    for _ in range(12 if ctx.quick() else 300):
+        nrec = rng.choice([0, 1, 2, 5, rng.randrange(0, 40)])
+        recs = [(rng.choice([5, 6, 7, 8, 100, 1 << 20, rng.randrange(5, 1 << 40)]), rng.choice([0, 1, 300, rng.randrange(0, 1 << 40)])) for _ in range(nrec)]
+        ix = xzgen.index(recs)
+        inputs.append((7, 0, ix, 'index', False)); inputs.append((10, 0, ix, 'index-encoder', False))
+        bad = bytearray(ix); bad[rng.randrange(len(bad))] ^= 1 << rng.randrange(8)
+        inputs.append((7, 0, bytes(bad), 'index-damaged', False))
+        inputs.append((7, 0, ix[:rng.randrange(len(ix))], 'index-truncated', False))
     jobs = []   # (input index, mode, seed)
     for idx, (k, fl, b, lab, hb) in enumerate(inputs):
         jobs += [(idx, 0, 0), (idx, 1, 0), (idx, 2, 0), (idx, 3, rng.randrange(1 << 20)), (idx, 3, rng.randrange(1 << 20))]
